@@ -428,7 +428,11 @@ func runPatchWL(e *Env) {
 		// evaluated at every quiescence point: detect the end of a planned execution's task
 		if !finished && planned >= 2*len(streams) && o.inFlight == 0 && len(runs) > 0 {
 			last := runs[len(runs)-1].Exec
-			if last.EndSeq != 0 && e.Since()-last.End > 8*time.Second {
+			settle := 8 * time.Second
+			if slowDelete {
+				settle = 30 * time.Second // several foreground deletes of one stream each wait for a terminating object
+			}
+			if last.EndSeq != 0 && e.Since()-last.End > settle {
 				finished = true
 			}
 		}
